@@ -363,8 +363,17 @@ func H_C10_both() {
 	dir := vxrt.Dir()
 	path := dir + "/f.snap"
 	fb, fa, f10, fold := vxFrame("TestB - 1", "b"), vxFrame("TestA - 2", "a2"), vxFrame("TestA - 10", "a10"), vxFrame("TestOld - 1", "stale")
+	reg := map[string]map[string]int{path: {"TestA": 10, "TestB": 1}}
+	want := fa + f10 + fb
 	var content string
-	switch vxrt.Choice("stale-position", 3) {
+	switch vxrt.Choice("stale-position", 5) {
+	case 4: // live M, stale C, live D: the stale entry is in order with what follows it, the survivors are not
+		fm, fd := vxFrame("TestM - 1", "m"), vxFrame("TestD - 1", "d")
+		content = fm + vxFrame("TestC - 1", "stale") + fd
+		reg = map[string]map[string]int{path: {"TestM": 1, "TestD": 1}}
+		want = fd + fm
+	case 3: // the stale entry sorts between its neighbours, which are out of order
+		content = fb + vxFrame("TestAZ - 1", "stale") + f10 + fa
 	case 0:
 		content = fold + fb + f10 + fa
 	case 1:
@@ -373,10 +382,9 @@ func H_C10_both() {
 		content = fb + f10 + fa + fold
 	}
 	vxWriteFile(path, content)
-	reg := map[string]map[string]int{path: {"TestA": 10, "TestB": 1}}
 	obsolete, err := examineSnaps(reg, []string{path}, "", 1, true, true)
 	vxrt.Assert(err == nil && len(obsolete) == 1, "C10:examine-succeeds")
-	vxrt.Assert(vxReadFile(path) == fa+f10+fb, "C10:sorted-in-natural-order")
+	vxrt.Assert(vxReadFile(path) == want, "C10:sorted-in-natural-order")
 	stamp := vxrt.FSStamp()
 	_, err = examineSnaps(reg, []string{path}, "", 1, true, true)
 	vxrt.Assert(err == nil && vxrt.FSStamp() == stamp, "C10:second-run-changes-nothing")
